@@ -463,6 +463,22 @@ def wl_options(ctx, R, tz):
         checks.append(('tzid-default-gettz', [x.tzinfo for x in r] == [ny, ny]))
     r = R.rrulestr('DTSTART;TZID=X/Y:19970902T090000\nRRULE:FREQ=DAILY;COUNT=2', tzids={'X/Y': tz.tzoffset('X/Y', 3600)})
     checks.append(('tzids-mapping', [x.utcoffset() for x in r] == [D.timedelta(hours=1)] * 2))
+    # an explicit WKST=MO in the text is Monday whatever the process-wide default week start is (calendar.setfirstweekday)
+    import calendar
+    saved = calendar.firstweekday()
+    try:
+        for first in (calendar.SUNDAY, calendar.WEDNESDAY, calendar.MONDAY):
+            calendar.setfirstweekday(first)
+            for wk_text, wk_kw in (('MO', R.MO), ('SU', R.SU), ('WE', R.WE)):
+                want2 = list(R.rrule(R.WEEKLY, interval=2, wkst=wk_kw, byweekday=(R.TU, R.SU), count=8, dtstart=st))
+                try:
+                    got2 = list(R.rrulestr('DTSTART:19970902T090000\nRRULE:FREQ=WEEKLY;INTERVAL=2;WKST=%s;BYDAY=TU,SU;COUNT=8' % wk_text))
+                    back = list(R.rrulestr(str(R.rrule(R.WEEKLY, interval=2, wkst=wk_kw, byweekday=(R.TU, R.SU), count=8, dtstart=st))))
+                    checks.append(('wkst-text-vs-keyword-under-firstweekday-%d' % first, got2 == want2 and back == want2))
+                except Exception:
+                    checks.append(('wkst-text-vs-keyword-under-firstweekday-%d' % first, False))
+    finally:
+        calendar.setfirstweekday(saved)
     # tzinfos reaches every date of the text: a start and an UNTIL written with names only tzinfos knows give the keyword rule
     qst, qwt = tz.tzoffset('QST', -5 * 3600), tz.tzoffset('QWT', 3 * 3600)
     names = {'QST': qst, 'QWT': qwt}
@@ -561,6 +577,7 @@ MALFORMED = [
     'DTSTART:19970902T090000,19970903T090000\nRRULE:FREQ=DAILY;COUNT=2', 'DTSTART:19970902T090000\nRRULE:FREQ=DAILY;COUNT=2\nRDATE;VALUE=DATE:19970902',
     'DTSTART:19970902T090000\nRRULE:FREQ=DAILY;COUNT=2\nEXDATE;FOO=1:19970902T090000', 'DTSTART:notadate\nRRULE:FREQ=DAILY;COUNT=2',
     'DTSTART;TZID=X/Y:19970902T090000Z\nRRULE:FREQ=DAILY;COUNT=2', 'RRULE:FREQ=DAILY;COUNT=2;FREQ', 'DTSTART:19970902T090000Z\nRRULE:FREQ=DAILY;UNTIL=19971224T000000',
+    'DTSTART;VALUE=DATE-TIME;VALUE=DATE:19970902T090000\nRRULE:FREQ=DAILY;COUNT=2', 'DTSTART:19970902T090000\nRRULE:FREQ=DAILY;COUNT=2\nEXDATE;VALUE=DATE;VALUE=DATE-TIME:19970903T090000',
     # ... and the opposite mismatch: naive start, UNTIL in UTC (inline start, start through dtstart=, inside an EXRULE)
     'DTSTART:19970902T090000\nRRULE:FREQ=DAILY;UNTIL=19970905T090000Z', 'RRULE:FREQ=DAILY;UNTIL=19970905T090000Z',
     'DTSTART:19970902T090000\nRRULE:FREQ=DAILY;COUNT=3\nEXRULE:FREQ=DAILY;UNTIL=19970905T090000Z',
